@@ -28,6 +28,16 @@ def verdicts(impl, env, auth):
     return out
 
 
+def toks_summary(toks, j):
+    """the j-th operation of a token list (for messages)"""
+    ops, i = [], 0
+    while i < len(toks):
+        n = {"P": 3, "W": 3, "L": 2, "S": 3}.get(toks[i], 1)
+        ops.append(toks[i] + " " + "".join(chr(int(c)) for c in toks[i + 1].split(",")) if i + 1 < len(toks) else toks[i])
+        i += n
+    return ops[j] if j < len(ops) else "?"
+
+
 def shared_containers(v):
     """pairs of paths at which one and the same dict / list object sits"""
     seen, out = {}, []
@@ -313,6 +323,105 @@ def run(ck: Check) -> None:
             ck.nontrivial_add((proto.enc(env)[:200], tuple(ops)))
         if len(ck.samples) < 5:
             ck.samples.append({"ops": ops, "signers": len(ks)})
+    # histories over several named files against the file-system model (Model/Files.lean: writeMd / loadMd / signFile; driver op `fsops`): foreign content planted
+    # or files removed between the library's operations, values written, files loaded, envelopes signed in place — every operation's result and, at the end,
+    # every file's bytes are compared (theorems write_over_anything, write_frame, write_then_load, signFile_frame speak about exactly these operations)
+    import shutil
+    ck.correspondences.add("corr:file-histories/results+final-contents")
+    hd = os.path.join(d, "fs-histories")
+    names = ["a.json", "b.json", "c.json"]
+    wire, real = [], []
+    for hno in range(ck.n(60, 16)):
+        shutil.rmtree(hd, ignore_errors=True)
+        os.makedirs(hd)
+        toks, results = [], []
+        kk = [gen.key(j) for j in rng.sample(range(10), 2)]
+        base = gen.envelope(envgen.payload(rng) if rng.random() < 0.6 else gen.rand_json(rng, 3, [12]))
+        if rng.random() < 0.5:
+            gen.sign_env(base, kk[:1], False)
+        for _ in range(rng.randint(4, 12)):
+            nm = rng.choice(names)
+            path = os.path.join(hd, nm)
+            op = rng.choice("PWWLLSS")
+            ncode = proto.codes(nm)
+            if op == "P":
+                v_ = rng.choice([base, {"x": [1, 2]}, [1, "a"], "text"])
+                canon = gen.oracle_bytes(v_)
+                content = rng.choice([canon, canon + b"\n", b"\xef\xbb\xbf" + canon, canon.replace(b"\n", b"\r\n"), b"not json\n", b"", b"{}", None, canon[:-1], b"[1, 2,]"])
+                if content is None:
+                    if os.path.exists(path):
+                        os.unlink(path)
+                    toks += ["P", ncode, "-"]
+                else:
+                    with open(path, "wb") as f:
+                        f.write(content)
+                    toks += ["P", ncode, "x" + content.hex()]
+                results.append("ok")
+            elif op == "W":
+                v_ = rng.choice([base, gen.rand_json(rng, 3, [10]), {"signatures": {}, "signed": {"n": rng.randrange(9)}}, 10 ** 4300 if rng.random() < 0.1 else 7])
+                toks += ["W", ncode, proto.enc(v_)]
+                try:
+                    impl.common.write_metadata_to_file(v_, path)
+                    results.append("ok")
+                except Exception:  # noqa: BLE001
+                    results.append("E")
+            elif op == "L":
+                toks += ["L", ncode]
+                try:
+                    results.append("V " + proto.enc(impl.common.load_metadata_from_file(path)))
+                except Exception:  # noqa: BLE001
+                    results.append("E")
+            else:
+                k_ = rng.choice(kk)
+                toks += ["S", ncode, k_.seed.hex()]
+                try:
+                    with impl.quiet_stdout():
+                        loaded = impl.common.load_metadata_from_file(path)
+                        impl.signing.sign_signable(loaded, impl.common.PrivateKey.from_bytes(k_.seed))
+                        impl.common.write_metadata_to_file(loaded, path)
+                    results.append("ok")
+                except Exception:  # noqa: BLE001
+                    results.append("E")
+        final = {nm: (open(os.path.join(hd, nm), "rb").read() if os.path.exists(os.path.join(hd, nm)) else None) for nm in names}
+        strangers = sorted(set(os.listdir(hd)) - set(names))
+        wire.append("fsops " + " ".join(toks))
+        real.append((results, final, strangers, toks))
+    answers = ck.driver.run(wire)
+    for ln, (results, final, strangers, toks), ans in zip(wire, real, answers):
+        ck.evaluations += 1
+        ck.oracle_checks += 1
+        ck.count("file-history")
+        okm = ans.startswith("F ") and " || " in ans
+        bad = None
+        if not okm:
+            bad = "model did not answer: " + ans[:80]
+        else:
+            res_part, fs_part = ans[2:].split(" || ", 1)
+            mres = [x.strip() for x in res_part.split(" | ")] if res_part.strip() else []
+            if len(mres) != len(results):
+                bad = "operation counts differ"
+            else:
+                for j, (a_, b_) in enumerate(zip(results, mres)):
+                    same = a_ == b_ or (a_.startswith("V ") and b_.startswith("V ") and proto.deep_equal(proto.dec(a_[2:]), proto.dec(b_[2:])))
+                    if not same:
+                        bad = f"operation {j} ({toks_summary(toks, j)}): implementation {a_[:60]} / model {b_[:60]}"
+                        break
+            if bad is None:
+                mfs = dict(p_.split("=", 1) for p_ in fs_part.split(" ") if "=" in p_)
+                for nm in names:
+                    key_ = proto.codes(nm)
+                    if key_ in mfs:
+                        want_b = None if mfs[key_] == "-" else bytes.fromhex(mfs[key_][1:])
+                        if want_b != final[nm]:
+                            bad = f"final content of {nm}: implementation {('missing' if final[nm] is None else str(len(final[nm])) + ' bytes')} / model {('missing' if want_b is None else str(len(want_b)) + ' bytes')}"
+                            break
+        if strangers:
+            ck.violation("file operations left other files next to the ones named", {"appeared": strangers[:5]}, "stray-file:history")
+        if bad:
+            ck.mismatch_total += 1
+            ck.mismatch_kinds["file-history"] = ck.mismatch_kinds.get("file-history", 0) + 1
+            if len(ck.mismatches) < 10:
+                ck.mismatches.append({"corr": "corr:file-histories/results+final-contents", "line": ln[:1500], "impl": bad, "model": ans[:300], "tag": "file-history", "meta": {}, "stdout_encoding": "utf-8"})
     # any JSON value survives write + load, not only envelopes: top-level strings (also ones that look like JSON text), numbers, arrays, null
     for v in ["123", "null", '{"a": 1}', "\u00e9", "", " ", '"quoted"', "[1, 2]", 5, -1, 1.5, True, None, [1, "a"], [], {}, "x" * 70, "\ud800", gen.rand_json(rng, 3, [10])]:
         try:
